@@ -370,6 +370,12 @@ def run_shard(spec):
     i = 0
     while i < spec["n"] + nb and not (i >= nb and sh.out_of_time()):
         case = cases[i] if i < nb else gen_case(rng, dict(bytes_defaults=0.0), dict(big=0.01, size_budget=120))
+        if i >= nb and rng.random() < 0.1 and "record" in repr(case["schema"]):
+            # records declared with the kind "error": decoded and skipped like any record
+            from ..gen.schema import errorize
+            case["schema"] = errorize(case["schema"], rng)
+            case["node"], case["env"] = RS.build(case["schema"])
+            sh.count("error_kind_schemas")
         i += 1
         sh.feat(case["features"])
         sh.run_case(one_case, sh, fa, rng, case, spec["tier"])
